@@ -9,6 +9,7 @@ import (
 	"os"
 	"path/filepath"
 	"sort"
+	"strings"
 
 	"github.com/semihalev/sdns/server"
 )
@@ -330,6 +331,45 @@ func groupLookupShape(p *pkgAST) (copyWhenShared, idRewrite bool) {
 	return
 }
 
+// deferredWipe inspects the deferred closures of fd: does one of them, at its
+// top level (not under an if), assign the whole struct `*v = T{}`? It also
+// returns the fields of v assigned at the top level of the deferred closures.
+func deferredWipe(fd *ast.FuncDecl, v, typ string) (whole bool, assigned map[string]bool) {
+	assigned = map[string]bool{}
+	ast.Inspect(fd.Body, func(n ast.Node) bool {
+		d, ok := n.(*ast.DeferStmt)
+		if !ok {
+			return true
+		}
+		fl, ok := d.Call.Fun.(*ast.FuncLit)
+		if !ok {
+			return true
+		}
+		for _, st := range fl.Body.List {
+			as, ok := st.(*ast.AssignStmt)
+			if !ok {
+				continue
+			}
+			for i, l := range as.Lhs {
+				if star, ok := l.(*ast.StarExpr); ok {
+					if id, ok := star.X.(*ast.Ident); ok && id.Name == v && i < len(as.Rhs) {
+						if cl, ok := as.Rhs[i].(*ast.CompositeLit); ok && len(cl.Elts) == 0 {
+							if t, ok := cl.Type.(*ast.Ident); ok && t.Name == typ {
+								whole = true
+							}
+						}
+					}
+				}
+				if f, ok := rootField(l, v); ok {
+					assigned[f] = true
+				}
+			}
+		}
+		return true
+	})
+	return
+}
+
 func facts() map[string]any {
 	srv := parseDir("server")
 	mw := parseDir("middleware")
@@ -410,6 +450,23 @@ func facts() map[string]any {
 		})
 	}
 	out["chain_rebind_resets_writer"] = rebindResets
+
+	// --- edns: the deferred cleanup of serveWire / ServeDNS must wipe the whole writer
+	// (`*rw = ResponseWriter{}`), unconditionally; otherwise list the fields it leaves
+	ed := parseDir("middleware/edns")
+	edFields := ed.structFields("ResponseWriter")
+	for _, fn := range []string{"serveWire", "ServeDNS"} {
+		left := edFields
+		if m := ed.method("EDNS", fn); m != nil {
+			whole, assigned := deferredWipe(m, "rw", "ResponseWriter")
+			if whole {
+				left = []string{}
+			} else {
+				left = minus(edFields, assigned)
+			}
+		}
+		out["edns_"+strings.ToLower(fn)+"_slot_unreset"] = left
+	}
 
 	// --- capacity pinning shapes
 	out["beginwire_pins_capacity"] = hasFullSliceExpr(mw.method("responseWriter", "BeginWire"), "need")
